@@ -25,7 +25,7 @@ RULE = ("per sampled archive (0-8 entries, sub-folder names, sizes 0..2 KiB incl
 REAL = ["src/rvutils/pbofile.hpp", "src/fileio/default.cpp (add_pbo_mapping, get_info, read_file)", "src/cli/cli.cpp --input-pbo"]
 STUB = ["archive images are written by the simulator before the reader opens them (crash-at-rest of stored bytes)", "logger (recording)"]
 ASSUMPTIONS = ["damaged archive: the reader may refuse it, or expose entries each byte-identical to the packed entry of that name; anything else is a violation",
-               "allocation bound: largest single allocation during an open/read <= 64 KiB + 16 x file size",
+               "allocation bound: largest single allocation during an open/read <= 1 MiB + 16 x file size",
                "truncation and header corruption are enumerated completely per sampled archive; archives are sampled"]
 SCRATCH = "/var/tmp/verif-c17"
 
@@ -73,6 +73,50 @@ def pack(props, entries, trailer):
     return bytes(out), layout
 
 
+def parse_image(data):
+    """independent reading of an image: (entries [(name, size)], data_start) or None when the structure is broken"""
+    def cstr(i):
+        j = data.find(b"\x00", i)
+        if j < 0:
+            return None, None
+        return data[i:j], j + 1
+    name, i = cstr(0)
+    if name is None or i + 20 > len(data):
+        return None
+    i += 20
+    while True:
+        if i >= len(data):
+            return None
+        if data[i] == 0:
+            i += 1
+            break
+        k, i = cstr(i)
+        if k is None:
+            return None
+        v, i = cstr(i)
+        if v is None:
+            return None
+    entries = []
+    while True:
+        nm, i = cstr(i)
+        if nm is None or i + 20 > len(data):
+            return None
+        size = struct.unpack("<I", data[i + 16:i + 20])[0]
+        i += 20
+        if nm == b"":
+            break
+        entries.append((nm, size))
+    return entries, i
+
+
+def claims_fit(data):
+    r = parse_image(data)
+    if r is None:
+        return "broken"
+    entries, start = r
+    return "fits" if start + sum(sz for _, sz in entries) <= len(data) else "exceeds"
+
+
 def region_of(layout, off):
     for name, a, b in layout["regions"]:
         if a <= off < b:
@@ -80,7 +124,7 @@ def region_of(layout, off):
     return "end"
 
 
-def gen_archive(rng):
+def gen_archive(rng, big=True):
     n = rng.randint(0, 8)
     names = []
     pool = ["a.sqf", "b.sqf", "config.cpp", "data.bin", "fn_init.sqf", "x.txt"]
@@ -91,7 +135,7 @@ def gen_archive(rng):
         if nm in names:
             nm = "f%d_" % i + nm.replace("\\", "_")
         names.append(nm)
-        size = rng.choice([0, 1, 2, 3, 5, 17, 100, 700, 2048])
+        size = rng.choice([0, 1, 2, 3, 5, 17, 100, 300, 700 if big else 40, 2048 if big else 64])
         kind = rng.random()
         if kind < 0.4:
             data = bytes(rng.randrange(256) for _ in range(size))
@@ -150,12 +194,12 @@ def images(img, layout, rng, quota):
 
 
 def generate(rng, tier, run):
-    props, entries, trailer = gen_archive(rng)
+    props, entries, trailer = gen_archive(rng, big=(tier != "quick"))
     img, layout = pack(props, entries, trailer)
     quota = 400 if tier == "quick" else 4000
     items = []
     for kind, region, data in images(img, layout, rng, quota):
-        path = rng.choice(["open", "open", "vfs", "vfs", "cli"]) if kind != "intact" else "all"
+        path = rng.choice(["open"] * 6 + ["vfs"] * 5 + ["cli"]) if kind != "intact" else "all"
         items.append([kind, region, None if data is None else base64.b64encode(data).decode(), path])
     root = os.path.join(SCRATCH, "r%d_%d" % (os.getpid(), run))
     case = {"props": props, "entries": [[n, base64.b64encode(d).decode()] for n, d in entries], "trailer": trailer,
@@ -192,7 +236,7 @@ def item_steps(case, i):
             steps.append({"do": "pbo_open", "path": f})
         elif p == "vfs":
             vm = "v%d" % i
-            steps.append({"do": "vm_new", "vm": vm, "template": False, "conf": {"print_work": False}})
+            steps.append({"do": "vm_new", "vm": vm, "template": False, "ops": "none", "conf": {"print_work": False}})   # the file layer needs no operators
             steps.append({"do": "pbo_map", "vm": vm, "path": f})
             for n, r in vfs_requests(case):
                 steps.append({"do": "vfs_read", "vm": vm, "path": r})
@@ -287,10 +331,13 @@ def judge(case, hs):
 def judge_item(case, i, seg, packed):
     kind, region, data, path = case["items"][i]
     V = []
-    k0 = kind.split(":")[0]
     intact = kind == "intact"
-    size = 0 if data is None else len(base64.b64decode(data))
-    bound = 65536 + 16 * size
+    raw = b"" if data is None else base64.b64decode(data)
+    size = len(raw)
+    # what kind of damage this is, for the identity of a finding: fault kind, region hit, and whether the entries the
+    # damaged table claims still fit into the file (nothing short of a checksum can tell such an image from a good one)
+    k0 = kind.split(":")[0] if intact or data is None else "%s:%s:%s" % (kind.split(":")[0], region, claims_fit(raw))
+    bound = (1 << 20) + 16 * size
     snaps = [e for e in seg if e[1] == "fs_snapshot"]
     if len(snaps) == 2 and snaps[0][3] != snaps[1][3]:
         before = {x[0]: x[1:] for x in snaps[0][3]}
